@@ -275,7 +275,7 @@ def build_world(sc, d):
     p = sc["ploidy"]
     if sc.get("world") == "deep":
         return _deep_world(sc, d)
-    samples = ["s1", "s2"][:sc["nsamples"]]
+    samples = list(sc.get("sample_names") or ["s1", "s2"])[:sc["nsamples"]]
     nchrom = sc["nchrom"]
     min_olp = max(2, sc["min_overlap"])
     contigs, records, reads = [], [], []
@@ -329,6 +329,8 @@ def build_world(sc, d):
         preph = {s: {} for s in samples}          # site index -> (gt order, ps)
         if sc["prephased_input"]:
             for s in samples:
+                if s in sc.get("unphased_samples", ()):      # this sample arrives without any phase information
+                    continue
                 truth, vgt, kinds = per_sample[s]
                 hets = [i for i in range(nvar) if _het(vgt[i]) and -1 not in vgt[i]]
                 i = 0
